@@ -27,16 +27,17 @@ try:
     p = sh('git apply %s/patch.diff' % src, cwd=wt)
     if p.returncode:
         print('patch does not apply:', p.stdout); raise SystemExit(1)
-    t = sh('cargo test --workspace --no-fail-fast --offline 2>&1 | grep -E "^test result|^error" ', cwd=wt)
+    t = sh('timeout 900 cargo test --workspace --no-fail-fast --offline 2>&1 | grep -E "^test result|^error" ', cwd=wt)
     log['suite_with_patch'] = t.stdout.strip().split('\n')
     if not re.search(r'test result: ok\. 236 passed; 0 failed', t.stdout) or 'FAILED' in t.stdout or re.search(r'^error', t.stdout, re.M):
         print('suite does not pass with the patch:', t.stdout); raise SystemExit(1)
     shutil.copy(src + '/demo.rs', wt + '/tests/demo_seeded.rs')
-    d1 = sh('cargo test --offline --test demo_seeded 2>&1 | tail -15', cwd=wt)
-    log['demo_with_patch'] = [l for l in d1.stdout.split('\n') if l.startswith('test result') or 'panicked' in l][:6]
-    failed_with = bool(re.search(r'test result: FAILED', d1.stdout)) or 'error: test failed' in d1.stdout
+    # a demonstration of non-termination may hang: 300 s limit, a timeout with the patch counts as a failing demonstration
+    d1 = sh('(timeout 300 cargo test --offline --test demo_seeded 2>&1; echo DEMO_EXIT=$?) | tail -16', cwd=wt)
+    log['demo_with_patch'] = [l for l in d1.stdout.split('\n') if l.startswith('test result') or 'panicked' in l or l.startswith('DEMO_EXIT')][:6]
+    failed_with = bool(re.search(r'test result: FAILED', d1.stdout)) or 'error: test failed' in d1.stdout or 'DEMO_EXIT=124' in d1.stdout
     sh('git checkout -- src', cwd=wt, check=True)
-    d2 = sh('cargo test --offline --test demo_seeded 2>&1 | tail -15', cwd=wt)
+    d2 = sh('timeout 600 cargo test --offline --test demo_seeded 2>&1 | tail -15', cwd=wt)
     log['demo_without_patch'] = [l for l in d2.stdout.split('\n') if l.startswith('test result')][:3]
     passed_without = bool(re.search(r'test result: ok\.', d2.stdout)) and not re.search(r'test result: FAILED', d2.stdout)
     print('demo fails with patch:', failed_with, '| passes without:', passed_without)
